@@ -105,7 +105,9 @@ func initTupleAckData() {
 			{Name: "result", Type: "bytes"},
 			{Name: "message", Type: "string"},
 			{Name: "relayer", Type: "string"},
-			{Name: "feeOption", Type: "uint64"},
+			// the component name doubles as the JSON key ABIDecode goes through: it has to
+			// match the json tag of Acknowledgement.FeeOption ("fee_option")
+			{Name: "fee_option", Type: "uint64"},
 		},
 	)
 	if err != nil {
